@@ -18,7 +18,7 @@ def constant_speed_cases(tier):
     sweeps = [30, 90, 180, 360] + ([3, 270] if thorough else [])
     for R in radii:
         for sw in sweeps:
-            for dz in (None, 5.0):
+            for dz in (None, 5.0) + ((-5.0,) if R <= 10.0 and sw in (30, 180) else ()):      # ramping down as well as up
                 L = math.hypot(R * math.radians(sw), dz or 0.0)
                 out.append((f"arc R{R} sweep{sw} dz{dz}", lambda s, d, R=R, sw=sw, dz=dz: c10.arc_case(s, d, R, sw, dz, 0), L, R))
         out.append((f"circle R{R}", lambda s, d, R=R: c10.circle_case(s, d, R, 60), TWO_PI * R, R))
